@@ -36,6 +36,8 @@ def showVal : Val → String
   | .int i => s!"i:{i}"
   | .tok n => s!"t:{n}"
   | .nil => "n"
+  | .keys ks => "k:" ++ "+".intercalate (ks.map toString)
+  | .nums ns => "l:" ++ "+".intercalate (ns.map toString)
 
 def showOptVal : Option Val → String
   | none => "-"
